@@ -1555,9 +1555,22 @@ def normalize(tree, modname):
         known_funcs = set(ref["functions"])
         # the inliner of temporaries orders assignments and uses by position
         renumber(tree)
+        # literal tuples bound at class level that the reference does not
+        # know (a table a duplicated block was folded into)
+        ctab = {}
+        for cd in [x for x in ast.walk(tree) if isinstance(x, ast.ClassDef)]:
+            for st_ in cd.body:
+                if isinstance(st_, ast.Assign) and len(
+                        st_.targets) == 1 and isinstance(
+                            st_.targets[0], ast.Name) and isinstance(
+                                st_.value, (ast.Tuple, ast.List)):
+                    ctab.setdefault(cd.name, {})[st_.targets[0].id] = \
+                        st_.value
         for q, func in function_table(tree, modname).items():
             if q in known_funcs:
-                n += inline.unroll_literal_loops(func, set(locs.get(q, [])))
+                cname = q.split(".")[-2] if q.count(".") >= 2 else None
+                n += inline.unroll_literal_loops(
+                    func, set(locs.get(q, [])), ctab.get(cname))
                 n += inline.coalesce_aliases(func, set(locs.get(q, [])))
                 n += inline.inline_temporaries(func, set(locs.get(q, [])))
                 n += inline.inline_block_temporaries(
